@@ -111,8 +111,15 @@ def cands (s : S) (curOp curMode : String) (skipLoad : Bool) (ws : List String) 
       else []
   | ["S", "flusher", _, "flushing", fn, a, b, r] =>
       match opOf fn with
-      | "cas" => if a == "0" && b == "1" then [{ acts := [.fstep], pre := fun s => isLock s.f && (s.flushing == 0) == (r == "1") }] else []
+      | "cas" =>
+          if a == "0" && b == "1" then [{ acts := [.fstep], pre := fun s => isLock s.f && (s.flushing == 0) == (r == "1") }]
+          -- `inh=1`: the flusher is the handler's task; after the handler returned its tail runs closeCallback, whose
+          -- finalizer does stop(flushing) - the same steps a closer's closeCallback makes
+          else if a == "0" && b == "2" then
+            (if r == "1" then [{ acts := [.stopF], pre := fun s => s.f == .idle }] else [nop (fun s => s.f == .idle && s.flushing != 0)])
+          else []
       | "store" => if a == "0" then [{ acts := [.fstep], pre := fun s => isUnlock s.f }] else []
+      | "load" => [nop (fun s => s.f == .idle && s.flushing == toNat r)]
       | _ => []
   | ["S", "flusher", _, "outLen", fn, a, _, r] =>
       match opOf fn with
@@ -122,7 +129,10 @@ def cands (s : S) (curOp curMode : String) (skipLoad : Bool) (ws : List String) 
           else [{ acts := [.fsend (-d).toNat], pre := fun s => isSend s.f, post := fun s => s.out == toNat r }]   -- Skip of what the kernel accepted
       | "load" =>
           if skipLoad then [nop]
-          else if isChkEmpty s.f then [{ acts := [.fstep], pre := fun s => s.out == toNat r }] else []
+          else if isChkEmpty s.f then [{ acts := [.fstep], pre := fun s => s.out == toNat r }]
+          else if s.f == .idle then [nop]     -- closeBuffer's Len() in the task's closeCallback (`inh=1`)
+          else []
+      | "store" => if a == "0" && s.f == .idle then [nop (fun s => s.out == 0)] else []
       | _ => []
   | ["K", "flusher", _, "sendmsg", offered, n, _, vecs] =>
       -- the model's `out` mirrors outputBuffer.Len(): an accepted count n > 0 takes effect at the Skip line that follows
